@@ -260,6 +260,33 @@ func ruleAMR(r *Run) {
 		r.FuncsSeen[fnName(f)] = true
 	}
 
+	// ---- A11: the protocol is all there is -------------------------------------------------
+	// The helper and its literals may call mapFunc, reduceFunc and the error-list join. A call
+	// to any other module function that can block or synchronise (channel operation, select,
+	// mutex, wait group, sleep — directly or further down) is a piece of protocol hidden from
+	// the obligations below: a semaphore taken around mapFunc deadlocks nested fan-outs.
+	nA11 := 0
+	for _, f := range a.all {
+		for _, ins := range allInstrs(f) {
+			ci, ok := ins.(ssa.CallInstruction)
+			if !ok {
+				continue
+			}
+			sc := ci.Common().StaticCallee()
+			if sc == nil || !inModule(sc) {
+				continue
+			}
+			callee := r.P.declared(sc)
+			if callee == nil || callee.Blocks == nil || topFn(callee) == fn {
+				continue
+			}
+			nA11++
+			if why := r.blockingReason(callee, map[*ssa.Function]bool{}); why != "" {
+				a.bad("A11", "blocking-helper:"+fnName(callee), ci, "the fan-out helper calls "+fnName(callee)+", which "+why+": synchronisation hidden in a helper is outside the checked protocol (a slot/semaphore held while the map function runs makes nested fan-outs wait for each other forever)")
+			}
+		}
+	}
+
 	// ---- inventory of concurrency constructs -------------------------------------------
 	var gos []*ssa.Go
 	var sends []*ssa.Send
@@ -1373,4 +1400,38 @@ func (a *amr) underEmptyErrs(ret *ssa.Return, errsCell *ssa.Alloc) bool {
 		}
 	}
 	return false
+}
+
+// blockingReason: fn (or a module function it calls) performs a channel operation, a select,
+// takes a lock, waits on a wait group or sleeps. "" if none.
+func (r *Run) blockingReason(fn *ssa.Function, seen map[*ssa.Function]bool) string {
+	if fn == nil || seen[fn] || fn.Blocks == nil {
+		return ""
+	}
+	seen[fn] = true
+	for _, f := range withClosures(fn) {
+		for _, ins := range allInstrs(f) {
+			switch x := ins.(type) {
+			case *ssa.Send:
+				return "sends on a channel at " + r.P.pos(x.Pos())
+			case *ssa.Select:
+				return "selects at " + r.P.pos(x.Pos())
+			case *ssa.UnOp:
+				if x.Op == token.ARROW {
+					return "receives from a channel at " + r.P.pos(x.Pos())
+				}
+			case ssa.CallInstruction:
+				switch n := calleeName(x.Common()); n {
+				case "(*sync.Mutex).Lock", "(*sync.RWMutex).Lock", "(*sync.RWMutex).RLock", "(*sync.WaitGroup).Wait", "time.Sleep", "(*sync.Cond).Wait":
+					return "calls " + n + " at " + r.P.pos(x.Pos())
+				}
+				if sc := x.Common().StaticCallee(); sc != nil && inModule(sc) {
+					if why := r.blockingReason(r.P.declared(sc), seen); why != "" {
+						return why
+					}
+				}
+			}
+		}
+	}
+	return ""
 }
